@@ -108,20 +108,25 @@ def shutting_down_func(e):
     """Manager-only predicate function combining the global flag, the weak
     reference and the executor flags."""
     a = e.anchors
+    run = a.manager_run
+    g = e.cfg(run)
     cands = []
-    for q in a.manager_funcs:
-        f = e.prog.funcs[q]
-        if not manager_only(e, q):
+    for t in g.nodes:
+        if t.kind != "test":
             continue
-        rets = [n for n in func_nodes(f) if isinstance(n, ast.Return) and n.value is not None]
-        if len(rets) != 1:
-            continue
-        attrs = {x.attr for x in ast.walk(rets[0].value) if isinstance(x, ast.Attribute)}
-        if {"shutdown", "broken"} <= attrs:
-            cands.append((f, rets[0].value))
+        for c in calls_in(t):
+            for q in e.callees_of(c):
+                f = e.prog.funcs[q]
+                if not manager_only(e, q) or q == run.qualname:
+                    continue
+                rets = [n for n in func_nodes(f) if isinstance(n, ast.Return) and n.value is not None]
+                if len(rets) == 1 and (f, rets[0].value) not in cands:
+                    cands.append((f, rets[0].value))
     if len(cands) != 1:
-        raise AnalysisError(f"is-shutting-down predicate not unique: {[c[0].short for c in cands]}")
-    return cands[0]
+        raise AnalysisError(f"is-shutting-down predicate (manager predicate tested in the loop) not unique: {[c[0].short for c in cands]}")
+    f, v = cands[0]
+    from .util import inline_locals
+    return f, inline_locals(e, f, v)
 
 
 def r_shutting_down_table(e, R):
